@@ -70,10 +70,10 @@ def classify(case):
 
 
 def shards(tier):
-    n = 600
+    n = 2000
     return [
         Shard(name, check, strategy=base_case(name, max_len=8 if tier == "quick" else 12,
                                               max_src=4 if tier == "quick" else 5),
-              n=n, nontrivial=nontrivial, classify=classify, thorough_mult=25)
+              n=n, nontrivial=nontrivial, classify=classify, thorough_mult=15)
         for name in ITER_TOOLS
     ]
